@@ -25,6 +25,10 @@ Theorem C05_labels_goto_defer_sound : forall p, off_labels p = [] -> rule_labels
 Proof. exact labels_sound_thm. Qed.
 Print Assumptions C05_labels_goto_defer_sound.
 
+Theorem C05_switch_case_values_sound : forall p, off_switch p = [] -> rule_switch p = true.
+Proof. exact switch_sound_thm. Qed.
+Print Assumptions C05_switch_case_values_sound.
+
 Theorem C05_consts_sound : forall p, off_consts p = [] -> rule_consts p = true.
 Proof. exact consts_sound_thm. Qed.
 Print Assumptions C05_consts_sound.
